@@ -232,10 +232,11 @@ func (hc *hashCollector) collect(fn *ssa.Function, env map[ssa.Value][]hsrc) {
 					hc.encs = append(hc.encs, henc{kind: k, srcs: hc.src(arg, env, 0), call: x, fn: fn, arg: arg, env: env})
 					continue
 				}
-				if !hc.c.P.fnIndex[callee] || len(callee.Params) == 0 || typeName(callee.Params[0].Type()) != "gtfs.hasher" {
+				hs := hc.c.hashShapeOf()
+				if !hc.c.P.fnIndex[callee] || len(callee.Params) == 0 || typeName(callee.Params[0].Type()) != hs.recv {
 					continue
 				}
-				if callee.Name() == "flush" {
+				if callee == hs.flush {
 					continue
 				}
 				env2 := map[ssa.Value][]hsrc{}
@@ -374,27 +375,139 @@ func xfOnly(xf []string, allowed ...string) bool {
 	return true
 }
 
+// hashShape: the hashing machinery found by its structure, not by its names: the unexported struct type of package gtfs
+// that has a method taking a *Trip and one taking a *Vehicle (the traversals); its methods taking a string, an
+// interface value, a *string and a *time.Time (the primitive encoders); its parameterless method (flush); and the
+// generic function taking the hasher and a pointer to a number.
+type hashShape struct {
+	recv                 string // "gtfs.hasher"
+	trip, vehicle, flush *ssa.Function
+	prims                map[*ssa.Function]string
+}
+
+func (c *Ctx) hashShapeOf() *hashShape {
+	if c.hashMemo != nil {
+		return c.hashMemo
+	}
+	byRecv := map[string]map[string]*ssa.Function{}
+	for _, fn := range c.P.ModFns {
+		// a method of, or a free function whose first parameter is, a pointer to an unexported struct of package gtfs
+		if fnPkgPath(fn) != modPath || fn.Synthetic != "" || fn.Parent() != nil || len(fn.Params) == 0 || len(fn.Params) > 2 {
+			continue
+		}
+		if fn.Signature.TypeParams().Len() > 0 || fn.Signature.RecvTypeParams().Len() > 0 || len(fn.TypeArgs()) > 0 {
+			continue
+		}
+		if _, isPtr := fn.Params[0].Type().(*types.Pointer); !isPtr {
+			continue
+		}
+		n := namedOf(fn.Params[0].Type())
+		if n == nil || n.Obj().Exported() || n.Obj().Pkg() == nil || n.Obj().Pkg().Path() != modPath || fn.Signature.Results().Len() != 0 {
+			continue
+		}
+		if _, isStruct := n.Underlying().(*types.Struct); !isStruct {
+			continue
+		}
+		role := ""
+		switch len(fn.Params) {
+		case 1:
+			role = "flush"
+		case 2:
+			pt := fn.Params[1].Type()
+			switch st := shortType(pt); {
+			case st == "*gtfs.Trip":
+				role = "trip"
+			case st == "*gtfs.Vehicle":
+				role = "vehicle"
+			case st == "string":
+				role = "string"
+			case st == "*string":
+				role = "stringPtr"
+			case st == "*time.Time":
+				role = "timePtr"
+			default:
+				if _, isI := pt.Underlying().(*types.Interface); isI {
+					role = "number"
+				}
+			}
+		}
+		if role == "" {
+			continue
+		}
+		rn := typeName(fn.Params[0].Type())
+		if byRecv[rn] == nil {
+			byRecv[rn] = map[string]*ssa.Function{}
+		}
+		if byRecv[rn][role] != nil {
+			byRecv[rn][role+"#dup"] = fn
+		}
+		byRecv[rn][role] = fn
+	}
+	for rn, roles := range byRecv {
+		if roles["trip"] == nil || roles["vehicle"] == nil {
+			continue
+		}
+		hs := &hashShape{recv: rn, trip: roles["trip"], vehicle: roles["vehicle"], flush: roles["flush"], prims: map[*ssa.Function]string{}}
+		for _, k := range []string{"string", "number", "stringPtr", "timePtr"} {
+			if roles[k] == nil || roles[k+"#dup"] != nil {
+				c.Undecided("ANCHOR", "gtfs:hasher."+k, "resolve", "-", "UNRESOLVED ANCHOR: the hasher's "+k+" encoder (a method of "+rn+" taking that type) was not found or is ambiguous")
+				continue
+			}
+			hs.prims[roles[k]] = k
+		}
+		if hs.flush == nil || roles["flush#dup"] != nil {
+			c.Undecided("ANCHOR", "gtfs:hasher.flush", "resolve", "-", "UNRESOLVED ANCHOR: the hasher's parameterless flush method was not found or is ambiguous")
+		}
+		// the generic pointer-to-number encoder: func f[T](h *hasher, p *T)
+		if gp := c.P.SSAPkg[modPath]; gp != nil {
+			var hnp *ssa.Function
+			for _, m := range gp.Members {
+				f, ok := m.(*ssa.Function)
+				if !ok || f.Signature.TypeParams().Len() == 0 || f.Signature.Params().Len() != 2 || typeName(f.Signature.Params().At(0).Type()) != rn {
+					continue
+				}
+				if _, isPtr := f.Signature.Params().At(1).Type().(*types.Pointer); isPtr {
+					hnp = f
+				}
+			}
+			if hnp == nil {
+				c.Undecided("ANCHOR", "gtfs:hashNumberPtr", "resolve", "-", "UNRESOLVED ANCHOR: the generic pointer-to-number encoder was not found")
+			} else {
+				hs.prims[hnp] = "hashNumberPtr"
+			}
+		}
+		c.hashMemo = hs
+		return hs
+	}
+	c.Undecided("ANCHOR", "gtfs:hasher", "resolve", "-", "UNRESOLVED ANCHOR: no unexported type of package gtfs has traversal methods for *Trip and *Vehicle")
+	c.hashMemo = &hashShape{prims: map[*ssa.Function]string{}}
+	return c.hashMemo
+}
+
+// hashShapeOfQuiet: the shape without reporting unresolved parts (for properties that merely consult it).
+func (c *Ctx) hashShapeOfQuiet() *hashShape {
+	if c.hashMemo != nil {
+		return c.hashMemo
+	}
+	if c.hashQuiet != nil {
+		return c.hashQuiet
+	}
+	n := len(c.Obls)
+	hs := c.hashShapeOf()
+	for _, o := range c.Obls[n:] {
+		delete(c.seen, o.Key())
+	}
+	c.Obls = c.Obls[:n]
+	c.hashMemo = nil
+	c.hashQuiet = hs
+	return hs
+}
+
 func runHash(c *Ctx) {
 	p := c.P
-	hasherTrip := c.anchor("gtfs:(*hasher).trip")
-	hasherVehicle := c.anchor("gtfs:(*hasher).vehicle")
-	primNames := map[string]string{"string": "string", "number": "number", "stringPtr": "stringPtr", "timePtr": "timePtr"}
-	prims := map[*ssa.Function]string{}
-	for n, k := range primNames {
-		if f := c.anchor("gtfs:(*hasher)." + n); f != nil {
-			prims[f] = k
-		}
-	}
-	gp := p.SSAPkg[modPath]
-	var hnp *ssa.Function
-	if gp != nil {
-		hnp = gp.Func("hashNumberPtr")
-	}
-	if hnp == nil {
-		c.Undecided("ANCHOR", "gtfs:hashNumberPtr", "resolve", "-", "UNRESOLVED ANCHOR gtfs:hashNumberPtr")
-	} else {
-		prims[hnp] = "hashNumberPtr"
-	}
+	hs := c.hashShapeOf()
+	hasherTrip, hasherVehicle := hs.trip, hs.vehicle
+	prims := hs.prims
 	if hasherTrip == nil || hasherVehicle == nil {
 		return
 	}
@@ -698,7 +811,7 @@ func runHashPrimitives(c *Ctx, prims map[*ssa.Function]string) {
 	for f, k := range prims {
 		byKind[k] = f
 	}
-	flush := c.anchor("gtfs:(*hasher).flush")
+	flush := c.hashShapeOf().flush
 	number := byKind["number"]
 
 	// H3 string: number(len(s)) ; flush ; h.h.Write([]byte(s))  -- in this order on every path
